@@ -81,6 +81,7 @@ def register(reg):
         (C05 C07) and the connection's stream ownership is settled (C06)."""
         key = RI + ".request"
         props = ("C05", "C06", "C07", "C01", "C02", "C03", "C15", "C18")
+        result_kind = "ref:" + RESPONSE
         params = {"extensions": "val"}
         variants = WRAPPER_VARIANTS
         raises = API_RAISES + ["Cancelled", "TypeError", EXC + "LocalProtocolError"]
